@@ -199,8 +199,10 @@ void mustache::SystemManager::removeSystem(const std::string& system_name) noexc
         return;
     }
 
-    (void ) std::remove(data_->ordered_systems.begin(), data_->ordered_systems.end(), find_res->second);
-    (void ) std::remove(data_->systems_info.begin(), data_->systems_info.end(), find_res->second);
+    auto& ordered = data_->ordered_systems;
+    ordered.erase(std::remove(ordered.begin(), ordered.end(), find_res->second), ordered.end());
+    auto& infos = data_->systems_info;
+    infos.erase(std::remove(infos.begin(), infos.end(), find_res->second), infos.end());
     data_->system_by_name.erase(find_res);
 
     reorderSystems();
